@@ -8,6 +8,7 @@ use crate::sx::Sx;
 use marwood::vm::verif::GcMode;
 
 pub struct CmpOk {
+    pub ref_outcomes: Vec<RefOutcome>,
     pub compared: usize,
     pub discarded_at: Option<(usize, String)>,
     pub instrs: u64,
@@ -99,6 +100,12 @@ impl Default for CmpOpts {
 /// Run `forms` in the reference machine and (as text, under the case's knobs and schedule) in the VM.
 /// `judged[i] == false` marks forms whose observation is not compared (junk, set-up).
 pub fn compare_session(forms: &[Sx], judged: &[bool], case_template: &Case, opts: &CmpOpts) -> Cmp {
+    compare_session_texts(forms, None, judged, case_template, opts)
+}
+
+/// `vm_texts`: the texts given to the implementation when they differ from the reference's
+/// forms (fault injection: the reference evaluates a marker at the fault site).
+pub fn compare_session_texts(forms: &[Sx], vm_texts: Option<&[String]>, judged: &[bool], case_template: &Case, opts: &CmpOpts) -> Cmp {
     let mut machine = Machine::new();
     machine.step_limit = opts.ref_step_limit;
     let mut refs: Vec<RefObs> = vec![];
@@ -117,7 +124,10 @@ pub fn compare_session(forms: &[Sx], judged: &[bool], case_template: &Case, opts
         None => forms.len(),
     };
     let mut case = case_template.clone();
-    case.forms = forms[..usable].iter().map(|f| f.text()).collect();
+    case.forms = match vm_texts {
+        Some(t) => t[..usable].to_vec(),
+        None => forms[..usable].iter().map(|f| f.text()).collect(),
+    };
     let run = run_case(
         &case,
         &RunOpts {
@@ -160,6 +170,7 @@ pub fn compare_session(forms: &[Sx], judged: &[bool], case_template: &Case, opts
         }
     }
     Cmp::Ok(CmpOk {
+        ref_outcomes: refs.iter().map(|r| r.outcome.clone()).collect(),
         compared: usable,
         discarded_at,
         instrs: run.instructions,
